@@ -11,7 +11,7 @@ def _env(extra):
 
 
 def run(ctx):
-    ctx.lean_obligations(["SV.Props.C08"], drivers=["svdriver_c08"])
+    ctx.lean_obligations(["SV.Props.C08", "SV.Props.C08b"], drivers=["svdriver_c08"])
     quick = ctx.tier == "quick"
     b = ctx.go_test_binary("snapshot", "h_snapshot")
     if b:
@@ -20,6 +20,10 @@ def run(ctx):
         # concurrent callers: oracle-only stream (emits no op lines, so the model diff is empty)
         ctx.correspond(b, "TestVerifC08Conc", "svdriver_c08", "c08conc",
                        env=_env({"VERIF_N": 40 if quick else 800}), timeout=1500 if quick else 3000)
+        # trace refinement of the INTERLEAVED model: concurrent calls under forced + random schedules, every
+        # atomic event replayed by the trace acceptor (conc-* ops of svdriver_c08)
+        ctx.correspond(b, "TestVerifC08Trace", "svdriver_c08", "c08trace",
+                       env=_env({"VERIF_N": 25 if quick else 600}), timeout=1500 if quick else 3000)
     return ctx.finish(
         level="proof",
         rule="real NewSnapshotter on a temporary root with a recording FileSystem whose Mount/Check/Unmount "
@@ -34,12 +38,28 @@ def run(ctx):
              "call (Cleanup, Remove, Mounts, Walk, Stat, Prepare, View, Commit) is started in a second goroutine "
              "with a bounded wait; 16 scripted Cleanup-vs-Prepare/View windows + random pairs; afterwards the "
              "schedule-independent clauses are evaluated (every live snapshot has fs/work, handed-out mounts exist, "
-             "no unmount of a live snapshot, one final Cleanup leaves exactly the live ids)",
+             "no unmount of a live snapshot, one final Cleanup leaves exactly the live ids).  TRACE REFINEMENT of the "
+             "interleaved model (TestVerifC08Trace): 2-4 concurrent Prepare(+target)/View/Commit/Remove/Cleanup/Update calls "
+             "per batch on one real snapshotter, crash-point markers and backend Unmount as sync points under a controlled "
+             "schedule (one call runs at a time; one call may probe bolt's writer lock while another is parked inside its "
+             "write transaction); 32 forced schedules (Cleanup scan vs Prepare at tempdir/renamed/committed, Remove(parent) "
+             "vs Prepare(parent), Commit vs Remove of one key, Remove loop vs Cleanup on one orphan, failing create vs "
+             "Cleanup, two Prepares with one target, Remove-after-commit vs Prepare rename; sync and async removal) then "
+             "seeded random schedules; every atomic event is replayed by the acceptor SV.Snap.Trace.fire (must be an enabled "
+             "transition, invariant evaluator after every step), the model's result of every call and its dirs/meta/mounts at "
+             "every quiescent point are diffed with the real ones; independent oracle on the real state (conc-* signatures: "
+             "live snapshot without fs/work dir, mount without dir, double mount, Unmount of a live snapshot's dir, mounts "
+             "handed out for missing dirs, Remove/Commit/Prepare acknowledged but not reflected, final Cleanup not exact); a "
+             "batch is distinct by its event shape",
         assumptions=[
             "concurrent callers: the *_concurrent theorems hold for the interleaved model (fresh root, no crash/Close/"
             "restart inside the run, NoKeyConflict, writer lock = createSnapshot's write transaction + atomic single-step "
-            "write transactions); that the Go code takes bolt's writer lock exactly there is not proved but probed by "
-            "the oracle-only concurrent-callers stream (and is what the seeded read-transaction Cleanup breaks)",
+            "write transactions); that the Go code takes bolt's writer lock exactly there is checked by trace refinement on "
+            "the generated schedules (a call that gets through a write transaction while another is open is rejected by "
+            "the acceptor), not proved for all schedules",
+            "trace tie: the recorded order is faithful because the harness lets one call run between sync points; an "
+            "in-lock effect without its own marker (CreateSnapshot, Update, scans) is placed at the next sync point of "
+            "that call; backend Mount is not a scheduling point (open bolt read transaction)",
             "mkdir/rename/RemoveAll/bolt commit do not fail and are atomic",
             "an Unmount call ends the backend's mount whatever it returns (fs/fs.go drops the layer first)",
             "NoRestore is only configured while the backend kept its mounts (cmd/containerd-stargz-grpc/main.go); "
